@@ -162,4 +162,74 @@ def step (i : StepIn α) : StepOut α :=
     let p := if inb then cand else i.u
     finish i Sc.zero Sc.zero Sc.zero Sc.zero Sc.zero rwmLogFactor cand inb p
 
+/-! ### the whole ensemble: per-walker gather of the mode statistics, and the per-cluster sigma adaptation
+
+  Python (`BaseMCMCRunner.run`, `TPCNRunner._propose/_compute_acceptance_factor`): every per-mode array is subscripted with
+  `self.assignments[k]` resp. `self.assignments` — walker `k` uses mean, Cholesky factor, inverse covariance, dof and sigma of
+  mode `assignments[k]` in the proposal AND in the acceptance factor.  After accept/reject:
+      for c in range(n_clusters): mask = assignments == c; if not any(mask): continue; _adapt_sigma(c, alpha[mask].mean()) -/
+
+structure Mode (α : Type) where
+  mu : List α
+  chol : List (List α)
+  invcov : List (List α)
+  nu : α
+
+structure Walker (α : Type) where
+  u : List α
+  /-- index of the walker's mode (`assignments[k]`, a valid non-negative index) -/
+  assign : Nat
+  l : α
+  lp : α
+  g : α
+  r : α
+  z : List α
+
+structure RunIn (α : Type) where
+  kind : Kind
+  modes : List (Mode α)
+  /-- one step size per mode -/
+  sigmas : List α
+  beta : α
+  per : List Nat
+  refl : List Nat
+  /-- `self.iteration` after the increment, as a float -/
+  iter : α
+  sigma0 : α
+  walkers : List (Walker α)
+
+/-- the single-walker input assembled from the walker's own mode; `none` = index out of range (numpy: IndexError) -/
+def walkerInput (i : RunIn α) (w : Walker α) : Option (StepIn α) :=
+  match i.modes[w.assign]?, i.sigmas[w.assign]? with
+  | some m, some sg =>
+    some { kind := i.kind, u := w.u, mu := m.mu, chol := m.chol, invcov := m.invcov, nu := m.nu, sigma := sg,
+           beta := i.beta, l := w.l, lp := w.lp, g := w.g, r := w.r, z := w.z, per := i.per, refl := i.refl }
+  | _, _ => none
+
+def walkerStep (i : RunIn α) (w : Walker α) : Option (StepOut α) := (walkerInput i w).map step
+
+/-- `alpha[assignments == c]` -/
+def clusterAlphas (assign : List Nat) (alphas : List α) (c : Nat) : List α :=
+  (List.zip assign alphas).filterMap fun p => if p.1 = c then some p.2 else none
+
+/-- `.mean()` of a non-empty array (left fold; numpy sums pairwise — regime T) -/
+def mean (l : List α) : α := Sc.div (Sc.sum l) (Sc.ofNat l.length)
+
+def adaptOne (kind : Kind) (sigma iter acc sigma0 : α) : α :=
+  match kind with
+  | .tpcn => tpcnAdapt sigma iter acc sigma0
+  | .rwm => rwmAdapt sigma iter acc sigma0
+
+/-- the cluster loop after accept/reject: clusters without a walker keep their sigma -/
+def adaptAll (i : RunIn α) (alphas : List α) : List α :=
+  i.sigmas.mapIdx fun c sg =>
+    let a := clusterAlphas (i.walkers.map (·.assign)) alphas c
+    if a.isEmpty then sg else adaptOne i.kind sg i.iter (mean a) i.sigma0
+
+/-- one step of the whole ensemble: per-walker results and the adapted step sizes -/
+def runStep (i : RunIn α) : Option (List (StepOut α) × List α) :=
+  match i.walkers.mapM (walkerStep i) with
+  | none => none
+  | some outs => some (outs, adaptAll i (outs.map (·.alpha)))
+
 end Model.Kernel
